@@ -80,6 +80,15 @@ Fixpoint find_col (sch : schema) (q : option name) (c : name) (i : nat) : option
   | (q', c') :: r => if Pos.eqb c c' && qual_ok q q' then Some i else find_col r q c (S i)
   end.
 
+(* an unqualified column that two differently qualified columns of the row could mean *)
+Definition oname_eqb (a b : option name) : bool :=
+  match a, b with Some x, Some y => Pos.eqb x y | None, None => true | _, _ => false end.
+Definition ambiguous (sch : schema) (c : name) : bool :=
+  match filter (fun x => Pos.eqb c (snd x)) sch with
+  | [] => false
+  | x :: r => existsb (fun y => negb (oname_eqb (fst x) (fst y))) r
+  end.
+
 (* functions known to the evaluator (ids fixed by the translator) *)
 Definition f_coalesce : name := 1%positive.
 Definition f_abs : name := 2%positive.
@@ -155,7 +164,9 @@ Fixpoint eval_e (f : nat) (cx : ctx) (sch : schema) (rw : row) (grp : option rel
   | S f' =>
     let ev := eval_e f' cx sch rw grp in
     match e with
-    | ECol q c => match find_col sch q c 0 with Some i => nth i rw VErr | None => VErr end
+    | ECol q c =>
+        if match q with None => ambiguous sch c | Some _ => false end then VErr else
+        match find_col sch q c 0 with Some i => nth i rw VErr | None => VErr end
     | EConst v => v
     | EUn op a =>
         let x := ev a in
